@@ -197,7 +197,7 @@ def clause_of(op, err: str) -> str:
 
 def _worker(arg) -> Acc:
     cls_name, max_depth = arg
-    cls = {"W": dw.W, "WB": dw.WB}[cls_name]
+    cls = {"W": dw.W, "WB": dw.WB, "WC": dw.WC, "WCB": dw.WCB}[cls_name]
     acc = Acc()
     P = pool(cls)
     OPS = ops(len(P))
@@ -262,21 +262,21 @@ def run(ctx: Ctx) -> None:
     depth = 10 if ctx.quick else 14
     ctx.rule = (
         "breadth-first search over histories of get_label/get_class/in/is_empty/set_empty over a pool of 5 class objects "
-        "(4 distinct, 2 equal, 1 empty) and labels -2..6, for the plain and the byte-compressed class type, deduplicated on "
+        "(4 distinct, 2 equal, 1 empty) and labels -2..6, for the plain and the byte-compressed class type, each also with colliding hashes, deduplicated on "
         "the three backing lists; every transition compared with a list-backed reference and invariants evaluated in every "
         "state; non-trivial = distinct database states"
     )
     ctx.assumptions = ["callers pass set_empty the class's true emptiness (as the searcher does)",
                        "is_empty is only asked of classes that already have a label"]
     ctx.bounds = {"max_depth": depth, "pool": 5, "labels": LABELS}
-    ctx.pmap(_worker, [("W", depth), ("WB", depth)])
-    for k in ("closed_W", "closed_WB"):
+    ctx.pmap(_worker, [("W", depth), ("WB", depth), ("WC", depth), ("WCB", depth)])
+    for k in ("closed_W", "closed_WB", "closed_WC", "closed_WCB"):
         if not ctx.acc.notes.get(k):
             ctx.acc.cap(f"state space not closed at depth {depth} ({k})")
 
 
 def replay(acc: Acc, payload: dict) -> None:
-    cls = {"W": dw.W, "WB": dw.WB}[payload["cls"]]
+    cls = {"W": dw.W, "WB": dw.WB, "WC": dw.WC, "WCB": dw.WCB}[payload["cls"]]
     P = pool(cls)
     hist = [tuple(o) for o in payload["history"]]
     db, ref, err = build(cls, P, hist)
